@@ -62,6 +62,9 @@ struct St {
 struct M {
     max_nodes: usize,
     max_edges: usize,
+    /// non-initial start state: these operations are applied (unchecked, not part of the explored
+    /// history) before exploration starts
+    prefix: Vec<Op>,
 }
 
 fn lab(i: u8) -> Label {
@@ -107,7 +110,11 @@ impl Model for M {
     type State = St;
     type Key = String;
     fn init(&self) -> St {
-        St { g: GraphStore::new(), r: Ref { next_node: 1, next_edge: 1, ..Default::default() } }
+        let mut st = St { g: GraphStore::new(), r: Ref { next_node: 1, next_edge: 1, ..Default::default() } };
+        for op in &self.prefix {
+            self.apply(&mut st, op, false);
+        }
+        st
     }
     fn ops(&self, st: &St) -> Vec<Op> {
         let mut v = vec![];
@@ -527,14 +534,34 @@ fn main() {
             svmc::Tier::Quick => (4, 3, 3),
             svmc::Tier::Thorough => (6, 3, 3),
         };
-        let m = M { max_nodes, max_edges };
+        let m = M { max_nodes, max_edges, prefix: vec![] };
+        // second pass from a non-initial start state: two nodes, one relationship between them, already
+        // compacted (frozen tier). Deleting a compacted relationship and reusing its id is six
+        // operations from the empty store -- beyond the quick depth (seeded change C06b)
+        let m2 = M { max_nodes, max_edges, prefix: vec![Op::CreateNode(0), Op::CreateNode(1), Op::CreateEdge(1, 2, 0), Op::Compact] };
         if let Some(p) = &ctx.replay {
-            replay(ctx, &m, p);
+            let doc: serde_json::Value = serde_json::from_str(&std::fs::read_to_string(p).expect("read replay")).expect("json");
+            if doc["witness"]["start"] == "compacted_pair" {
+                replay(ctx, &m2, p);
+            } else {
+                replay(ctx, &m, p);
+            }
             return;
         }
-        let stats = hx::explore(&m, depth, 50_000_000, |v| {
+        let mut stats = hx::explore(&m, depth, 50_000_000, |v| {
             ctx.violation(&v.sig, v.msg, json!({"history": v.history.iter().map(|o| format!("{:?}", o)).collect::<Vec<_>>()}));
         });
+        let depth2 = match ctx.tier {
+            svmc::Tier::Quick => 3,
+            svmc::Tier::Thorough => 4,
+        };
+        let stats2 = hx::explore(&m2, depth2, 50_000_000, |v| {
+            ctx.violation(&v.sig, v.msg, json!({"start": "compacted_pair", "prefix": m2.prefix.iter().map(|o| format!("{:?}", o)).collect::<Vec<_>>(), "history": v.history.iter().map(|o| format!("{:?}", o)).collect::<Vec<_>>()}));
+        });
+        ctx.cov("second_pass_from_compacted_pair", json!({"prefix": m2.prefix.iter().map(|o| format!("{:?}", o)).collect::<Vec<_>>(), "depth": depth2, "states": stats2.states, "transitions": stats2.transitions}));
+        stats.states += stats2.states;
+        stats.transitions += stats2.transitions;
+        stats.cap_hit |= stats2.cap_hit;
         hx::report(ctx, &stats, "create_node{A,B} create_node_stub{A,B} create_edge{R,S} create_edge_with_properties{R,w:1} create_edge_stub{R,S} delete_edge delete_node add_label remove_label set_node_property{p:1,2} compact_adjacency finish_bulk_load; <=3 live nodes, <=3 live edges");
         ctx.assume("reference model: plain labelled multigraph (BTreeMaps); id free lists predicted LIFO and validated at every allocation");
         ctx.assume("get_edges_by_type is compared exactly only when no stub edge is pending finish_bulk_load (API contract)");
